@@ -62,3 +62,30 @@ Definition check_case (k : case) : N :=
   if negb (forallb is_sub (c_tals k)) then 9%N
   else if negb (spec_okb (c_cfg k) (c_tals k) (c_impl k)) then 2%N
   else if oz_eqb (model_obs (c_cfg k) (c_tals k)) (c_impl k) then 0%N else 1%N.
+
+(* ---- an order-free description of the deadline (used by the theorem that the order in which the engine
+   happens to process the objects of a publication point - it shuffles them - does not matter) ---- *)
+Definition own_times (c : cfg) (objs : list node) : list Z :=
+  flat_map (fun o => match o with
+                     | Leaf k t => if contributes c k then [t] else []
+                     | Sub _ _ _ _ _ _ => []
+                     end) objs.
+
+Definition node_na (n : node) : Z := match n with Leaf _ na => na | Sub na _ _ _ _ _ => na end.
+
+(* [cm] = the minimum of the times on the chain above (and including) the CA's own certificate.  Every accepted
+   point with at least one contributing object yields min(chain, manifest/CRL times, its contributing objects'
+   expiry times); nothing else yields anything. *)
+Fixpoint exact (c : cfg) (cm : Z) (n : node) {struct n} : list Z :=
+  match n with
+  | Leaf _ _ => []
+  | Sub _ accepted mft_na mft_next crl_next objs =>
+      if accepted then
+        let cm' := point_validity cm mft_na mft_next crl_next in
+        (match own_times c objs with [] => [] | _ => [fold_right Z.min cm' (own_times c objs)] end)
+        ++ flat_map (fun o => exact c (Z.min cm' (node_na o)) o) objs
+      else []
+  end.
+
+Definition exact_deadline (c : cfg) (tals : list node) : option Z :=
+  minl (flat_map (fun n => exact c (node_na n) n) tals).
